@@ -200,7 +200,7 @@ def run_property(pid, tier, repo, seed):
               assumptions=spec.get('assumptions', []) + P.STANDING_ASSUMPTIONS,
               wall_s=round(wall, 2), violations=len(seen))
     # evidence is only ever written for runs against /repo itself (never for scratch copies used in self-tests)
-    evdir = os.path.join(HERE, 'evidence') if os.path.realpath(repo) == '/repo' and not os.environ.get('VERIF_ONLY') else os.path.join(SCRATCH_ROOT, 'evidence-scratch')
+    evdir = os.environ.get('VERIF_EVIDENCE_DIR') or (os.path.join(HERE, 'evidence') if os.path.realpath(repo) == '/repo' and not os.environ.get('VERIF_ONLY') else os.path.join(SCRATCH_ROOT, 'evidence-scratch'))
     os.makedirs(evdir, exist_ok=True)
     json.dump(ev, open(os.path.join(evdir, pid + '.json'), 'w'), indent=1)
     print(f"{pid}: {discharged}/{obligations} complete obligations discharged, {len(bounded)} bounded, "
